@@ -20,6 +20,7 @@ type Violation struct {
 	Class  string `json:"class"`
 	Detail string `json:"detail"`
 	Cut    *int64 `json:"cut,omitempty"` // E2: the crash point that produced it (for a minimal replay job)
+	Mut    *Mut   `json:"mut,omitempty"` // C08: the alteration that produced it
 }
 
 // Hang describes a deadlock (or livelock) found by the scheduler.
